@@ -3,8 +3,24 @@
    Layers: F = documented format (Format.v), S = abstract spec (Spec/SpecStep), I = model of the Rust (World.step'). *)
 From Coq Require Import List NArith Bool Arith Sorted.
 From Coq Require Import Strings.Byte.
-Require Import BS.Bytes BS.Common BS.Api BS.Layout BS.Format BS.FormatFacts.
+Require Import BS.Bytes BS.Common BS.Api BS.Layout BS.Format BS.FormatFacts BS.Spec BS.SpecStep.
+Require Import BS.FS BS.FSFacts BS.Meta BS.MetaFacts BS.Header BS.Reader BS.ReaderFacts BS.Index BS.Data BS.DataFacts BS.Seek BS.Series BS.SeriesFacts.
 Import ListNotations.
 
-(* theorems for this property are added as the development grows; until then the property is
-   decided by the judge (Layer S/F, extracted) on the implementation and by the correspondence check *)
+(* (I refines S) an append is accepted iff `accepts` (Layer S: right length, strictly after the last
+   accepted timestamp); accepted: the handle represents l ++ [x] and only the data and index file
+   change; refused: an error, the file system is returned unchanged (World.with_handle keeps the
+   old handle on Err). For all payload sizes, all series, all timestamps below 2^64. *)
+Theorem C03_append_refines_spec : forall fs s p hdr ihdr l ts pay,
+  RepH fs s p hdr ihdr l -> (ts < 2^64)%N ->
+  if accepts p l ts pay
+  then exists fs' s', push_line s ts pay fs = (fs', Ok s')
+         /\ RepH fs' s' p hdr ihdr (l ++ [(ts, pay)])
+         /\ (forall g, g <> of_name (d_file (s_data s)) -> g <> of_name (ix_file (d_index (s_data s))) -> fs_get fs' g = fs_get fs g)
+         /\ of_name (d_file (s_data s')) = of_name (d_file (s_data s))
+         /\ of_name (ix_file (d_index (s_data s'))) = of_name (ix_file (d_index (s_data s)))
+  else exists e, push_line s ts pay fs = (fs, Err e).
+Proof. exact push_line_ok. Qed.
+Print Assumptions C03_append_refines_spec.
+(* partial: stability of the rule across reopen and tail repair needs the open theorem (C04/C05), which
+   is not proved yet; that part is covered by the judge + correspondence runs. *)
